@@ -85,3 +85,8 @@ pub fn datagram_ids(p: &[u8], from: &str, to: &str, learn: bool) -> (i64, i64) {
         (fnv(&p[1..1 + n]) as i64, -1)
     }
 }
+
+thread_local! {
+    /// set by the network when the datagram with the spoofed source address is handed to the server
+    pub static SPOOF_FLAG: std::cell::Cell<bool> = const { std::cell::Cell::new(false) };
+}
